@@ -1,10 +1,11 @@
 (* Extract_cap.v -- extraction of the C05 capacity models to OCaml (ExtrOcamlBasic only). *)
 From Coq Require Import List NArith ZArith Extraction ExtrOcamlBasic.
-From NV Require Import Bytes GenConsts GenCap GenExCmds CapDefs CapDefs2 CapDefs3.
+From NV Require Import Bytes GenConsts GenCap GenExCmds CapDefs CapDefs2 CapDefs3 CapDefs4.
 Definition all_types : nat * N * Z := (0%nat, 0%N, 0%Z).
 Extraction "cap_model.ml" all_types ex_exec ex_exec_unguarded ex_loc ex_cmd ex_arg ex_lineno ex_region
   ex_plus cutword ec_set_bufs newbuf wstr t_init t_step t_run excap
   REG reg_put reg_get markidx lbuf_mark lbuf_jump vb_run back_after_read rep_copy led_render_off cells_index
   ex_pathexpand ex_pathexpand_gen b_run b_run_gen b_init bufs_findroom
   REGSZ VIBUFSZ VIBUFGUARD PATHCAP NMARKS NBUFS REPCMDSZ ICMDSZ
-  vi_help_tag_gen vi_help_tag ai_init ai_step ai_run TAGSZ AISZ uc_trim cut_store.
+  vi_help_tag_gen vi_help_tag ai_init ai_step ai_run TAGSZ AISZ uc_trim cut_store
+  replace offs_ok NOFFS.
